@@ -37,14 +37,16 @@ theorem C17_stmts_StarvingMutex_RLock : stmts_StarvingMutex_RLock = [
   "end",
   "f.readersActive++"] := by decide
 
-/-- StarvingMutex.RUnlock (starvingmutex.go:75): `ruC`: panics on `readersActive == 0` / `writerActive` before any change; decrement; `Signal` iff the last reader left and a writer is pending, after the unlock (`ruS`). -/
+/-- StarvingMutex.RUnlock (starvingmutex.go:75): `ruC`: panics on `readersActive == 0` / `writerActive` before any change; decrement; `Signal` iff the last reader left and a writer is pending, after the unlock (`ruS`). Both guards release the internal mutex before they panic (`{ s with m := false }` in the panicking step). -/
 theorem C17_stmts_StarvingMutex_RUnlock : stmts_StarvingMutex_RUnlock = [
   "func func()",
   "f.mutex.Lock()",
   "if f.readersActive == 0",
+  "f.mutex.Unlock()",
   "panic(\"RUnlock called without RLock\")",
   "end",
   "if f.writerActive",
+  "f.mutex.Unlock()",
   "panic(\"RUnlock called while writer active\")",
   "end",
   "f.readersActive--",
@@ -75,14 +77,16 @@ theorem C17_stmts_StarvingMutex_Lock : stmts_StarvingMutex_Lock = [
   "f.pendingWriters--",
   "f.writerActive = true"] := by decide
 
-/-- StarvingMutex.Unlock (starvingmutex.go:130): `ulC`: both panics before any change; `Broadcast` to readers iff no writer is pending (`ulB`), else `Signal` (`ulS`), after the unlock. -/
+/-- StarvingMutex.Unlock (starvingmutex.go:130): `ulC`: both panics before any change; `Broadcast` to readers iff no writer is pending (`ulB`), else `Signal` (`ulS`), after the unlock. Both guards release the internal mutex before they panic (`{ s with m := false }` in the panicking step). -/
 theorem C17_stmts_StarvingMutex_Unlock : stmts_StarvingMutex_Unlock = [
   "func func()",
   "f.mutex.Lock()",
   "if f.readersActive > 0",
+  "f.mutex.Unlock()",
   "panic(\"Unlock called while readers active\")",
   "end",
   "if !f.writerActive",
+  "f.mutex.Unlock()",
   "panic(\"Unlock called without Lock\")",
   "end",
   "f.writerActive = false",
